@@ -145,6 +145,19 @@ def run(rep, tier, seed, model_ok=True, effort=1):
             # the update starts from the same version, and its result is not an existing tag
             code2, out2, logs2, exc2 = prj.run(impl, ["update", "--dry", "--no-fetch"] + flags + (["--ignore-vcs-tag"] if ignore else []))
             oldl = next((l.split("Old Version: ", 1)[1] for l in logs2 if "Old Version: " in l), None)
+            # a tag scope given on the command line overrides the configured one for the starting version too
+            if not ignore:
+                for cli_scope in ("default", "global", "branch"):
+                    if cli_scope == scope:
+                        continue
+                    c4, o4, l4, e4 = prj.run(impl, ["update", "--dry", "--no-fetch", "--tag-scope", cli_scope] + flags)
+                    old4 = next((l.split("Old Version: ", 1)[1] for l in l4 if "Old Version: " in l), None)
+                    want4 = expected_current(impl, pat, cfgv, cli_scope, tags_all, tags_branch)
+                    rep.case(("cli-tag-scope", pat, cfgv, scope, cli_scope, tuple(tags_all), tuple(tags_branch)))
+                    rep.count("cli-tag-scope")
+                    if old4 is not None and ref_key(old4) != ref_key(want4):
+                        rep.violation("with --tag-scope %s the update starts from %r, the greatest matching tag in that scope gives %r" % (cli_scope, old4, want4),
+                                      input=dict(inp, cli_scope=cli_scope), **{"class": "cli-scope-ignored"})
             newl = next((l.split("New Version: ", 1)[1] for l in logs2 if "New Version: " in l), None)
             if code2 == 0:
                 if oldl != cur:
